@@ -26,31 +26,51 @@ func init() {
 func runELEMDECODE(c *Ctx) {
 	P := c.P
 	n := 0
+	root := c.MustFunc("unmarshalMastNode")
+	if root == nil {
+		return
+	}
+	decoders := c.Facts.Reach(root)
+	decoders[root] = true
+	// (2) a converter handed to a generic element loop (func(body []byte) (interface{}, error)) must not answer
+	// "nil, no error" for a body it was given: that is the skipped element again, one call deeper
+	for _, fn := range P.Funcs {
+		if fn.Pkg == nil || fn.Pkg.Pkg.Path() != ir.MastPath {
+			continue
+		}
+		sig := fn.Signature
+		if sig.Params().Len() != 1 || sig.Results().Len() != 2 || !ir.IsErrorType(sig.Results().At(1).Type()) {
+			continue
+		}
+		if sl, ok := sig.Params().At(0).Type().Underlying().(*types.Slice); !ok || !isByte(sl.Elem()) {
+			continue
+		}
+		if _, isIface := sig.Results().At(0).Type().Underlying().(*types.Interface); !isIface {
+			continue
+		}
+		if !decoders[ir.Outermost(fn)] {
+			continue
+		}
+		for _, r := range ir.Returns(fn) {
+			if !ir.IsNilConst(r.Results[1]) {
+				continue
+			}
+			n++
+			if ir.IsNilConst(r.Results[0]) {
+				c.Violation(fn, P.InstrPos(r), "an element whose body is present can be left undecoded",
+					"the element converter returns a nil value with a nil error for a body it was handed: the slot keeps nil. With the example value (KeysLike/ValuesLike) left nil — a configuration the writer accepts when UnmarshalerUsesRegisteredTypes is set — every key or value of a reloaded node is nil")
+			} else {
+				c.OK(P.InstrPos(r), "element converter "+ir.FuncName(fn), "returns a decoded value on success", false)
+			}
+		}
+	}
 	for _, fn := range P.Funcs {
 		if fn.Pkg == nil || fn.Pkg.Pkg.Path() != ir.MastPath || fn.Parent() != nil {
 			continue
 		}
-		// an element-wise decoder: calls a func([]byte, interface{}) error parameter inside a loop
-		var um *ssa.Parameter
-		for _, p := range fn.Params {
-			if sig, ok := p.Type().Underlying().(*types.Signature); ok && sig.Params().Len() == 2 && sig.Results().Len() == 1 && ir.IsErrorType(sig.Results().At(0).Type()) {
-				if sl, ok := sig.Params().At(0).Type().Underlying().(*types.Slice); ok {
-					if b, ok := sl.Elem().Underlying().(*types.Basic); ok && b.Kind() == types.Uint8 {
-						um = p
-					}
-				}
-			}
-		}
-		if um == nil {
-			continue
-		}
-		looped := false
-		for _, ci := range CallsOf(fn) {
-			if ir.ResolveCell(ci.Common().Value) == ssa.Value(um) && inCycle(ci.Block()) {
-				looped = true
-			}
-		}
-		if !looped {
+		// an element-wise decoder of the node format: reachable from the node decoder and looping over bodies (a nil
+		// test of a []byte inside a loop, an element store into a list made here)
+		if !decoders[fn] {
 			continue
 		}
 		isElemStore := func(ins ssa.Instruction) bool {
@@ -142,4 +162,9 @@ func runELEMDECODE(c *Ctx) {
 	if n == 0 {
 		c.AnchorMissing("a presence test of an element body in an element-wise decoder")
 	}
+}
+
+func isByte(t types.Type) bool {
+	b, ok := t.Underlying().(*types.Basic)
+	return ok && b.Kind() == types.Uint8
 }
